@@ -22,6 +22,14 @@ CLAIMED = {
     note='Trusted: clang, ll2c, CBMC float model; rfi obligations treat floating multiply/divide/sqrt as uninterpreted functions (the claims do not depend on products); '
          'reproduction of rational functions BETWEEN knots and the 1..5 % band are outside the claim.',
     design='DESIGN.md section 4 / C10'),
+ 'C16': dict(
+    technique='bounded symbolic model checking of the real slot-table / parameter-collection code: clang-14 IR -> ll2c -> CBMC 6.11, table-model oracle, inductive step over arbitrary table states',
+    text='Bounded proof with CBMC over the real code: (C16.a) one add / delete / find / get_name / get_calibration_end step from an ARBITRARY slot table '
+         '(every occupancy pattern of allocation 0..3, symbolic name and index) agrees with a table model - an inductive step, so histories of any length over such '
+         'tables are covered, including that the index add returns is the one find/get_name honour; (C16.b) enumerated make_scalar / make_unknown / delete / query '
+         'histories of parameter handles from vnacal_create to vnacal_free (handles -1..7) against a handle-table model with reference counts, with assert/leak/bounds checks.',
+    note='Trusted: clang, ll2c, CBMC, the table models in harness/C16_*.c; C16.b histories are enumerated concretely (symbolic handles exhaust memory); vnacal_new_t holds and solved values are outside.',
+    design='DESIGN.md section 4 / C16'),
  'C13': dict(
     technique='bounded symbolic model checking of the real vnaproperty.c with CBMC 6.11 (native C front end, unwinding assertions), abstract-document / sequence / ordered-set oracles, native ASan replay',
     text='Bounded proof with CBMC over the real vnaproperty.c: (C13.a) from 12 enumerated small trees one operation of every kind (set =v, set #, delete, '
